@@ -254,3 +254,65 @@ class StubbornMode(vlib.Mode):
 
     def describe(self, case):
         return [l if not (l.startswith("session") or l.startswith("deny")) else l.split(" ")[0] + " <token> …" for l in case]
+
+
+STATUSLOAD_RULE = (" mode statusload (oracle only, real sockets): a write-only connection streams frames back to back on a topic nobody reads while GET /status "
+                   "is polled as fast as it answers (1-2 s, thousands of polls); every answer must list every connection that is joined throughout.")
+
+
+class StatusLoadMode(vlib.Mode):
+    """the status report while traffic flows: nobody who is joined may be missing from any answer"""
+    name = "statusload"
+    impl_mode = "relay"
+    compare = False
+    shrinkable = False
+    chunk = 2
+
+    def timeout(self, tier):
+        return 600
+
+    def generate(self, rng, tier):
+        cases = []
+        for _ in range(3 if tier == "quick" else 30):
+            now = 1000000 + rng.randrange(5000)
+            case = ["config 0 64", f"now {now}"]
+            k = 0
+            for topic, scopes in (("cam", ["write"]), ("idle", ["read", "write"]), ("cam2", rng.choice([["write"], ["read", "write"]]))):
+                case.append(f"session {tok(now, topic=sval(topic), bid=sval('b1'), scopes=lval(scopes))} {hx(topic)}")
+                case.append(f"ws {hx('/session/' + topic)} c{k}")
+                k += 1
+            st = tok(now, scopes=lval(["relay:stats"]), topic=sval("a"), prefix=sval("a"), bid=sval("a"))
+            case.append(f"pollstatus n0 {rng.choice([1000, 1500, 2000])} {st}")
+            if rng.random() < 0.5: case.append(f"pollstatus n2 {rng.choice([800, 1200])} {st}")
+            case.append("members")
+            cases.append(case)
+        return cases
+
+    def oracle(self, case, out):
+        fails = []
+        for l, o in zip(case, out):
+            if o.startswith("<<") or o in ("stuck", "dead") or o.startswith("panic"):
+                return [("relay-crash-or-hang", f"{l.split(' ')[0]} -> {o}")]
+            if l.startswith("ws ") and not o.startswith("joined"):
+                return []
+            if l.startswith("pollstatus ") and o.startswith("polls="):
+                d = dict(x.split("=", 1) for x in o.split(" "))
+                if int(d["incomplete"]) > 0:
+                    who = vlib.unhx(d["first"]).decode("utf-8", "replace") if d["first"] not in ("-", "no-answer") else d["first"]
+                    fails.append(("joined-connection-missing-from-status", f"{d['incomplete']} of {d['polls']} /status answers taken while n{l.split(' ')[1][1:]} was "
+                                  f"streaming ({d['sent']} frames) did not list a connection that was joined throughout (first missing: user agent {who!r})"))
+        return fails[:2]
+
+    def nontrivial(self, case, out):
+        return any(o.startswith("polls=") and int(o.split(" ")[0].split("=")[1]) >= 50 for o in out)
+
+    def account(self, stats, case, out):
+        super().account(stats, case, out)
+        t = stats.setdefault("totals", {"polls": 0, "frames": 0})
+        for o in out:
+            if o.startswith("polls="):
+                d = dict(x.split("=", 1) for x in o.split(" "))
+                t["polls"] += int(d["polls"]); t["frames"] += int(d["sent"])
+
+    def describe(self, case):
+        return [l if not (l.startswith("session") or l.startswith("pollstatus")) else " ".join(l.split(" ")[:3 if l.startswith("pollstatus") else 1]) + " <token> …" for l in case]
